@@ -1,8 +1,310 @@
-//! C04: short programs mixing stack instructions with RSP-relative loads and stores (filled in later).
-use super::run::HwMonitor;
+//! C04: short programs mixing stack instructions with RSP-relative loads and stores.
+//!
+//! A free-running mirror machine executes the program. Before every step its complete state
+//! (registers, flags, all memory) is copied into the traced child, the CPU single-steps the same
+//! instruction from that state, and the two post-states are compared (CPU, or the K-model of the
+//! recorded one-slot deviation). The machine then continues from its *own* post-state, so hidden
+//! emulator state (call stack, trace, executed count) accumulates while every step is still
+//! judged against the hardware.
+use super::gen::*;
+use super::run::*;
+use super::*;
 use crate::sup::Collector;
 use crate::util::Rng;
 
-pub fn run_program(_m: &mut HwMonitor, col: &mut Collector, _rng: &mut Rng) {
-    col.count("programs_not_implemented", 1);
+struct Asm {
+    b: Vec<u8>,
+    /// (offset of rel32, function index)
+    call_fixups: Vec<(usize, usize)>,
+}
+
+impl Asm {
+    fn rex_w(&mut self, r: u8, b: u8) {
+        self.b.push(0x48 | ((r >> 3) << 2) | (b >> 3));
+    }
+    fn push_r64(&mut self, r: u8) {
+        if r >= 8 {
+            self.b.push(0x41);
+        }
+        self.b.push(0x50 + (r & 7));
+    }
+    fn pop_r64(&mut self, r: u8) {
+        if r >= 8 {
+            self.b.push(0x41);
+        }
+        self.b.push(0x58 + (r & 7));
+    }
+    fn push_r16(&mut self, r: u8) {
+        self.b.push(0x66);
+        self.push_r64(r);
+    }
+    fn pop_r16(&mut self, r: u8) {
+        self.b.push(0x66);
+        self.pop_r64(r);
+    }
+    fn push_imm8(&mut self, v: u8) {
+        self.b.extend_from_slice(&[0x6a, v]);
+    }
+    fn push_imm32(&mut self, v: u32) {
+        self.b.push(0x68);
+        self.b.extend_from_slice(&v.to_le_bytes());
+    }
+    fn mov_store_rsp(&mut self, r: u8, d: i8) {
+        self.rex_w(r, 0);
+        self.b.extend_from_slice(&[0x89, 0x44 | ((r & 7) << 3), 0x24, d as u8]);
+    }
+    fn mov_load_rsp(&mut self, r: u8, d: i8) {
+        self.rex_w(r, 0);
+        self.b.extend_from_slice(&[0x8b, 0x44 | ((r & 7) << 3), 0x24, d as u8]);
+    }
+    fn mov_load_rbp(&mut self, r: u8, d: i8) {
+        self.rex_w(r, 0);
+        self.b.extend_from_slice(&[0x8b, 0x45 | ((r & 7) << 3), d as u8]);
+    }
+    fn mov_store_rbp(&mut self, r: u8, d: i8) {
+        self.rex_w(r, 0);
+        self.b.extend_from_slice(&[0x89, 0x45 | ((r & 7) << 3), d as u8]);
+    }
+    fn lea_rsp(&mut self, d: i8) {
+        self.b.extend_from_slice(&[0x48, 0x8d, 0x64, 0x24, d as u8]);
+    }
+    fn add_rsp(&mut self, d: i8) {
+        self.b.extend_from_slice(&[0x48, 0x83, 0xc4, d as u8]);
+    }
+    fn sub_rsp(&mut self, d: i8) {
+        self.b.extend_from_slice(&[0x48, 0x83, 0xec, d as u8]);
+    }
+    fn mov_rbp_rsp(&mut self) {
+        self.b.extend_from_slice(&[0x48, 0x89, 0xe5]);
+    }
+    fn mov_r_imm32(&mut self, r: u8, v: u32) {
+        self.rex_w(0, r);
+        self.b.extend_from_slice(&[0xc7, 0xc0 | (r & 7)]);
+        self.b.extend_from_slice(&v.to_le_bytes());
+    }
+    fn call_fn(&mut self, f: usize) {
+        self.b.push(0xe8);
+        self.call_fixups.push((self.b.len(), f));
+        self.b.extend_from_slice(&[0, 0, 0, 0]);
+    }
+    fn ret(&mut self) {
+        self.b.push(0xc3);
+    }
+}
+
+fn reg_no_sp(rng: &mut Rng) -> u8 {
+    loop {
+        let r = rng.below(16) as u8;
+        if r != 4 && r != 5 {
+            return r;
+        }
+    }
+}
+
+fn disp(rng: &mut Rng) -> i8 {
+    match rng.below(8) {
+        0 => 0,
+        1 => 8,
+        2 => -8,
+        3 => 16,
+        4 => (rng.below(16) as i8 - 8) * 8,
+        5 => rng.below(32) as i8 - 16,
+        _ => (rng.below(8) as i8) * 8,
+    }
+}
+
+fn emit_random(a: &mut Asm, rng: &mut Rng, nfuncs: usize, allow_call: bool) {
+    match rng.below(20) {
+        0..=3 => a.push_r64(rng.below(16) as u8),
+        4..=6 => a.pop_r64(reg_no_sp(rng)),
+        7 => a.push_r16(rng.below(16) as u8),
+        8 => a.pop_r16(reg_no_sp(rng)),
+        9 => a.push_imm8(rng.next() as u8),
+        10 => a.push_imm32(rng.val() as u32),
+        11 | 12 => a.mov_store_rsp(rng.below(16) as u8, disp(rng)),
+        13 | 14 => a.mov_load_rsp(reg_no_sp(rng), disp(rng)),
+        15 => match rng.below(4) {
+            0 => a.lea_rsp(disp(rng)),
+            1 => a.add_rsp((rng.below(5) * 8) as i8),
+            2 => a.sub_rsp((rng.below(5) * 8) as i8),
+            _ => {
+                a.mov_rbp_rsp();
+                if rng.below(2) == 0 {
+                    a.mov_load_rbp(reg_no_sp(rng), disp(rng));
+                } else {
+                    a.mov_store_rbp(rng.below(16) as u8, disp(rng));
+                }
+            }
+        },
+        16 => a.mov_r_imm32(reg_no_sp(rng), rng.val() as u32),
+        17 => {
+            if rng.below(6) == 0 {
+                a.pop_r64(4); // pop rsp
+            } else {
+                a.push_r64(4); // push rsp
+            }
+        }
+        _ => {
+            if allow_call && nfuncs > 0 {
+                a.call_fn(rng.below(nfuncs as u64) as usize);
+            } else {
+                a.mov_store_rsp(rng.below(16) as u8, disp(rng));
+            }
+        }
+    }
+}
+
+/// Returns (program bytes, end offset where execution stops normally).
+fn gen_program(rng: &mut Rng) -> (Vec<u8>, usize) {
+    let mut a = Asm { b: Vec::new(), call_fixups: Vec::new() };
+    let nfuncs = rng.below(3) as usize;
+    let nmain = rng.range(3, 12);
+    for _ in 0..nmain {
+        emit_random(&mut a, rng, nfuncs, true);
+    }
+    // jmp over the functions (rel32, patched below)
+    a.b.push(0xe9);
+    let jmp_fix = a.b.len();
+    a.b.extend_from_slice(&[0, 0, 0, 0]);
+    let mut fstart = Vec::new();
+    for _ in 0..nfuncs {
+        fstart.push(a.b.len());
+        let n = rng.below(4);
+        let mut pushed = 0i32;
+        for _ in 0..n {
+            // mostly balanced bodies so that RET finds its slot; sometimes not
+            match rng.below(5) {
+                0 => {
+                    a.push_r64(rng.below(16) as u8);
+                    pushed += 1;
+                }
+                1 if pushed > 0 => {
+                    a.pop_r64(reg_no_sp(rng));
+                    pushed -= 1;
+                }
+                2 => a.mov_store_rsp(rng.below(16) as u8, disp(rng)),
+                3 => a.mov_load_rsp(reg_no_sp(rng), disp(rng)),
+                _ => emit_random(&mut a, rng, 0, false),
+            }
+        }
+        while pushed > 0 && rng.below(8) != 0 {
+            a.pop_r64(reg_no_sp(rng));
+            pushed -= 1;
+        }
+        a.ret();
+    }
+    let end = a.b.len();
+    let rel = (end as i64 - (jmp_fix as i64 + 4)) as i32;
+    a.b[jmp_fix..jmp_fix + 4].copy_from_slice(&rel.to_le_bytes());
+    for (off, f) in a.call_fixups.clone() {
+        let rel = (fstart[f] as i64 - (off as i64 + 4)) as i32;
+        a.b[off..off + 4].copy_from_slice(&rel.to_le_bytes());
+    }
+    a.b.push(0x90);
+    (a.b, end)
+}
+
+pub fn run_program(m: &mut HwMonitor, col: &mut Collector, rng: &mut Rng) {
+    let (prog, end) = gen_program(rng);
+    let start = CODE + 0x400;
+    // initial state
+    let mut t0 = Trial { code: vec![], rip: start, gpr: [0; 16], flags: 0, xmm: [0; 16], fs: 0, gs: 0, patches: vec![(start, prog.clone())] };
+    for g in t0.gpr.iter_mut() {
+        *g = rng.val();
+    }
+    t0.gpr[4] = STACK + 0x1000 + 8 * rng.below(0x200) + if rng.below(8) == 0 { rng.below(8) } else { 0 };
+    t0.gpr[5] = STACK + 0x1800;
+    // the machine is built over base + program
+    let base: Vec<Vec<u8>> = match m.child_base(col) {
+        Some(b) => b,
+        None => return,
+    };
+    let mut pre = base.clone();
+    let off = (start - CODE) as usize;
+    pre[R_CODE][off..off + prog.len()].copy_from_slice(&prog);
+    let mut ax = match crate::util::catch(|| build_mirror(&t0, &pre)) {
+        Ok(Ok(ax)) => ax,
+        _ => {
+            col.count("program_mirror_failed", 1);
+            return;
+        }
+    };
+    col.count("programs", 1);
+    let mut steps = 0u64;
+    let mut shape = String::new();
+    loop {
+        if steps >= 48 {
+            col.count("program_step_limit", 1);
+            break;
+        }
+        let rip = ax.reg_read_64(sr(iced_x86::Register::RIP)).unwrap_or(0);
+        if rip < start || rip >= start + end as u64 {
+            if rip == start + end as u64 {
+                col.count("programs_ran_to_end", 1);
+            } else {
+                col.count("programs_left_code", 1);
+            }
+            break;
+        }
+        let o = (rip - start) as usize;
+        let Some(ins) = decode(&prog[o..], rip) else {
+            col.count("program_undecodable", 1);
+            break;
+        };
+        // copy the machine's complete state into a trial
+        let mut t = Trial { code: prog[o..o + ins.len()].to_vec(), rip, gpr: [0; 16], flags: ax.verif_rflags() & (F_STATUS | F_DF), xmm: [0; 16], fs: ax.read_fs(), gs: ax.read_gs(), patches: vec![] };
+        for (i, r) in GPR64.iter().enumerate() {
+            t.gpr[i] = ax.reg_read_64(sr(*r)).unwrap_or(0);
+        }
+        for i in 0..16u32 {
+            t.xmm[i as usize] = ax.reg_read_128(sr(iced_x86::Register::XMM0 + i)).unwrap_or(0);
+        }
+        ax.verif_for_each_area(|astart, _acc, data| {
+            if let Some(ri) = REGIONS.iter().position(|r| r.start == astart) {
+                let b = &base[ri];
+                let n = data.len().min(b.len());
+                let mut j = 0;
+                while j < n {
+                    if data[j] != b[j] {
+                        let st = j;
+                        let mut last = j;
+                        j += 1;
+                        while j < n && j - last <= 8 {
+                            if data[j] != b[j] {
+                                last = j;
+                            }
+                            j += 1;
+                        }
+                        t.patches.push((astart + st as u64, data[st..=last].to_vec()));
+                    } else {
+                        j += 1;
+                    }
+                }
+            }
+        });
+        shape.push_str(&format!("{:?};", ins.mnemonic()));
+        let label = format!("program step {} [{}]", steps, crate::util::hex(&prog));
+        let (out, back) = m.run_trial_core(col, &ins, &t, &label, Some(ax));
+        steps += 1;
+        col.count("program_steps", 1);
+        let Some(a) = back else { break };
+        ax = a;
+        match out {
+            Some(Outcome::Agree { .. }) => {}
+            Some(Outcome::Disagree(_)) => {
+                // known deviations continue from the machine's own post-state; unknown ones were reported
+                if ax.verif_finished() {
+                    break;
+                }
+                if !matches!(family(ins.mnemonic()), Family::Stack | Family::CallRet) {
+                    break;
+                }
+            }
+            _ => break,
+        }
+        if ax.verif_finished() {
+            break;
+        }
+    }
+    col.distinct_key(&format!("program|{}", shape));
 }
